@@ -417,7 +417,7 @@ def r06_8(ctx):
 
 
 # =============================================================================== C07
-@rule("R07.1", ["C07"], "T-TAB", floor=2700)
+@rule("R07.1", ["C07", "C17", "C13", "C12"], "T-TAB", floor=2700)
 def r07_1(ctx):
     """In every protocol version the map command name -> frame ID is injective, every ID fits that version's
     header (<= 0xFF for 4..7, <= 0xFFFF for 8..14), and the handler class uses its own version's table."""
